@@ -37,6 +37,7 @@ def run_shard(prop, tier, seed, shard, nshards, out_path, replay=None):
     cap = getattr(mod, "TIME_CAP", {}).get(tier)
     R = core.Run(prop, tier, seed, shard, nshards, time_cap=cap)
     core.install_socket_audit()
+    core.install_reach_monitor(os.path.join(os.path.abspath(os.environ.get("VERIF_REPO", "/repo")), "src"))
     try:
         from . import ber
 
@@ -167,6 +168,9 @@ def main():
         )
     if hasattr(mod, "finalize") and not args.replay and dumps:
         mod.finalize(m, tier)
+    reach, silent = core.anchor_reach(prop, m["reached"])
+    if not args.replay and dumps and reach and not any(reach["anchor_files"].values()):
+        m["inconclusive"].append("the workload never entered any function of the property's anchor files")
     for key in getattr(mod, "REQUIRED_MONITORS", ()):
         if not args.replay and not m["mon"].get(key):
             m["inconclusive"].append("monitor %r observed no events" % key)
@@ -186,6 +190,10 @@ def main():
         },
         "stopped_by_time_cap": m["capped"],
     }
+    coverage["code_reached"] = reach
+    if silent and not args.replay and dumps:
+        # pure-data modules (types/exceptions) have no functions to enter for some checks
+        coverage["anchor_files_never_entered"] = silent
     if m["exhaustive"] is not None:
         coverage["exhaustive"] = bool(m["exhaustive"]) and not m["capped"]
     if m["inconclusive"]:
